@@ -77,7 +77,10 @@ def admitted_lhs(rng, case, f, shape):
         return {"op": "dot", "args": [fn, n] if rng.random() < 0.6 else [n, fn]}
     if shape == "dn":
         g = {"op": "grad", "args": [fn]}
-        return {"op": "dot", "args": [g, n] if rng.random() < 0.6 else [n, g]}
+        vec = case["spaces"][case["fns"][f]["space"]]["vec"]
+        # grad of a VECTOR function is a matrix: grad(u).n and n.grad(u) are different products and Dot keeps the
+        # order written (/repo d07302d); the admitted shape is grad(u).n (the mirrored one is in bad_lhs)
+        return {"op": "dot", "args": [g, n] if (vec or rng.random() < 0.6) else [n, g]}
     raise ValueError(shape)
 
 
@@ -114,6 +117,7 @@ def bad_lhs(rng, case, f, other, nnormals):
         ("self-dot", c("dot", fn, fn)),
         ("div", c("div", fn)),
         ("comp-dn", c("dot", c("grad", {"idx": [f, i]}), n)),
+        ("dn-mirrored", c("dot", n, c("grad", fn))),       # vector.matrix: not grad(u).n
         ("two-normals", c("add", c("dot", fn, n), c("dot", fn, {"n": 1}))) if nnormals > 1 else None,
         ("two-normals", c("add", c("dot", fn, n), c("dot", fn, {"n": 1}))) if nnormals > 1 else None,
     ]
